@@ -200,6 +200,12 @@ enum Site {
     AccessOpen,
     AccessClose,
     AssignGap,
+    DoKeywordGap,
+    DoAfterBrace,
+    DoSeparator,
+    DoBeforeReturn,
+    DoReturnGap,
+    DoAfterReturn,
     /// redundant parentheses around a sub-term: "" or wrap
     Redundant,
 }
@@ -226,6 +232,12 @@ fn options(s: Site) -> &'static [&'static str] {
         Site::CondGap => &[" ", "\n", "\n  ", " //c\n", "  "],
         Site::AccessOpen | Site::AccessClose => &["", "\n", "//c\n", "\n\n"],
         Site::AssignGap => &[" ", "", "  "],
+        Site::DoKeywordGap => &[" ", "  ", "\n", " \n "],
+        Site::DoAfterBrace => &["\n  ", " ", "\n\n  ", " //c\n  ", "\n  //c\n  ", "\t"],
+        Site::DoSeparator => &["\n  ", "; ", ";", " ;\n  ", "\n\n  ", "\n  //c\n  ", ";  //c\n"],
+        Site::DoBeforeReturn => &["\n  ", "; ", "\n//c\n", ";\n\n"],
+        Site::DoReturnGap => &[" ", "  ", "\t"],
+        Site::DoAfterReturn => &["\n", " ", "", "\n\n "],
         Site::Redundant => &["", "(", "(("],
     }
 }
@@ -377,15 +389,23 @@ impl<'a> Layout<'a> {
                 self.operand(b);
             }
             T::Do(stmts, ret) => {
-                self.out.push_str("do {\n");
-                for s in stmts {
-                    self.out.push_str("  ");
+                self.out.push_str("do");
+                self.gap(Site::DoKeywordGap);
+                self.out.push('{');
+                self.gap(Site::DoAfterBrace);
+                for (i, s) in stmts.iter().enumerate() {
                     self.expr(s);
-                    self.out.push('\n');
+                    if i + 1 < stmts.len() {
+                        self.gap(Site::DoSeparator);
+                    } else {
+                        self.gap(Site::DoBeforeReturn);
+                    }
                 }
-                self.out.push_str("  return ");
+                self.out.push_str("return");
+                self.gap(Site::DoReturnGap);
                 self.operand(ret);
-                self.out.push_str("\n}");
+                self.gap(Site::DoAfterReturn);
+                self.out.push('}');
             }
             T::Assign(n, v) => {
                 self.out.push_str(n);
@@ -810,6 +830,8 @@ pub fn run(ctx: &Ctx, replay: Option<&J>) -> i32 {
     bases.push(T::bin(BinaryOp::Add, T::num(1.5), T::str("a b")));
     bases.push(T::bin(BinaryOp::Subtract, T::id("a"), T::Neg(Box::new(T::id("b")))));
     bases.push(T::List(vec![T::str("//not a comment"), T::str(", ]")]));
+    bases.push(T::Do(vec![T::Assign("p".into(), Box::new(T::id("a"))), T::bin(BinaryOp::Add, T::id("p"), T::num(1.0)), T::Assign("q".into(), Box::new(T::List(vec![T::id("p")])))], Box::new(T::id("q"))));
+    bases.push(T::Assign("z".into(), Box::new(T::Lam(vec![LArg::Req("x".into())], Box::new(T::Do(vec![T::Assign("p".into(), Box::new(T::id("x")))], Box::new(T::id("p"))))))));
     par_for_ctx(ctx, bases.len(), |i| layout_checks(ctx, &bases[i], thorough));
     ctx.set("layout_bases", json!(bases.len()));
     ctx.set("generator", json!({"states": stats.states, "transitions": stats.transitions, "complete": stats.complete}));
